@@ -101,9 +101,14 @@ def parse_sched(s):
     return [(it[0], int(it[1:])) for it in s.split(".")] if s else []
 
 
-def expected_tokens(line):
+def expected_tokens(line, got=None):
     """Independent evaluation of the property on a history: which database version must be
-    visible after each step, and what each lookup must answer."""
+    visible after each step, and what each lookup must answer.  The property obliges an update
+    to reload when the mtime check is off/disabled, stat() fails or mtime is newer than the
+    previous load; it does not forbid reloading more often, so when the implementation's own
+    tokens [got] are given, its report of "rebuild attempted" is followed where a reload is
+    optional, and the fields that are not part of the property (stat called, next timer, buffer
+    size) are taken from it.  Without [got] the minimal behaviour is predicted."""
     f = line.split(" ")
     variant = f[0][1]
     interval, dostat = (int(x) for x in f[1][1:].split(","))
@@ -136,7 +141,7 @@ def expected_tokens(line):
         elif c == "S":
             dostat = 1 if dostat else 0
             timer = 0
-            out.append("s/0")
+            out.append(got[len(out)] if got and len(out) < len(got) and got[len(out)].startswith("s/") else "s/0")
         elif c == "Q":
             u, g = (int(x) for x in a.split(","))
             out.append("q" + ans(u, g))
@@ -145,18 +150,23 @@ def expected_tokens(line):
         elif c in "RX":
             now, _, sch = a.partition("/")
             now = int(now)
-            if timer is None:
-                out.append("r--" if c == "R" else "x0no-timer")
+            if c == "X":                  # every concurrent lookup saw the old or the new map in full
+                out.append("x1" if timer is not None else "x0no-timer")
+            it = got[len(out)] if got and len(out) < len(got) else None
+            m = re.match(r"r([01])([01])/([^/]*)/([^/]*)$", it or "")
+            if timer is None and not m:
+                out.append("r--")
                 continue
             stat_called = dostat > 0
             newflag = dostat
             if dostat > 0:
                 if mtime is None:
-                    attempt, newflag = True, -1
+                    must, newflag = True, -1
                 else:
-                    attempt = mtime > t_last      # "modification time newer than the previous load"
+                    must = mtime > t_last          # "modification time newer than the previous load"
             else:
-                attempt = True
+                must = True
+            attempt = must or (m is not None and m.group(2) == "1")
             bl = "-"
             if attempt:
                 ok, delivered = build_outcome(db, parse_sched(sch), variant)
@@ -172,10 +182,10 @@ def expected_tokens(line):
                     loaded, t_last = (db, pw), now
             dostat = newflag
             timer = interval * 1000 if interval > 0 else None
-            if c == "R":
-                out.append("r%d%d/%s/%s" % (stat_called, attempt, "-" if timer is None else timer, bl))
+            if m:
+                out.append("r%s%d/%s/%s" % (m.group(1), attempt, m.group(3), m.group(4)))
             else:
-                out.append("x1")
+                out.append("r%d%d/%s/%s" % (stat_called, attempt, "-" if timer is None else timer, bl))
         else:
             out.append("?" + op)
     return out, U, G
@@ -185,8 +195,8 @@ def property_holds(line, impl):
     """None when the implementation's answers satisfy the property on this history"""
     if impl.startswith("!crash"):
         return "gids.c aborts (sanitizer report / fatal path): " + impl[:80]
-    want, U, G = expected_tokens(line)
     got = impl.split(" ") if impl else []
+    want, U, G = expected_tokens(line, got)
     if "!leak" in got:
         return "memory leaked while building/swapping maps"
     for i, (w, g) in enumerate(zip(want, got)):
@@ -201,7 +211,8 @@ def property_holds(line, impl):
         if w[0] == "q":
             return "lookup #%d answers %s, the databases say %s" % (i, g, w)
         if w[0] == "r":
-            return "update #%d behaves as %s, expected %s (stat called, rebuild attempted / next timer / buffer)" % (i, g, w)
+            return ("update (output token #%d) did not rebuild the map although the mtime check is off, stat() failed or "
+                    "the group file is newer than the previous load: %s" % (i, g))
         if w[0] == "x":
             return "lookup concurrent with an update saw a state that is neither the old nor the new map: %s" % g
         return "step #%d: got %s expected %s" % (i, g, w)
@@ -305,18 +316,22 @@ class Gen:
                 out.append("%s G%s Pa=7,b=8 M5 R10 A" % (self.head("g", U=[7, 8], G=[9, 10, 11, 12, 13, 100]), db_str(db)))
         return out
 
-    def sched(self, variant, ndb):
+    def sched(self, variant, ndb, budget):
+        """budget = [ERANGE items still allowed in this case]: on the 'entry consumed' variant every
+        ERANGE doubles xgetgrent's buffer for the rest of the process, so their number is bounded"""
         r = self.rng
         if variant == "g":
             return "f%d" % r.randrange(0, ndb + 2) if r.random() < 0.25 else ""
-        x = r.random()
-        if x < 0.3:
+        if r.random() < 0.3:
             return ""
-        if x < 0.4:
-            return ".".join("e%d" % r.randrange(0, ndb + 1) for _ in range(r.choice([14, 15, 16, 17])))
         items = []
         for _ in range(r.randrange(1, 4)):
-            items.append("%s%d" % (r.choice("eeef"), r.randrange(0, ndb + 2)))
+            kind = r.choice("eeef")
+            if kind == "e":
+                if budget[0] <= 0:
+                    continue
+                budget[0] -= 1
+            items.append("%s%d" % (kind, r.randrange(0, ndb + 2)))
         return ".".join(items)
 
     def history(self, variant, steps):
@@ -327,6 +342,7 @@ class Gen:
         now = r.choice([0, 1, 1000])
         mt = r.choice([0, now - 1, now, now + 1])
         t_last = None
+        budget = [10]
         ops = ["G" + db_str(db), "P" + pw_str(pw), "M%d" % max(mt, 0)]
         for _ in range(steps):
             x = r.random()
@@ -354,7 +370,7 @@ class Gen:
                 ops.append("S")
             elif x < 0.80:
                 now += r.choice([0, 0, 1, 1, interval, 7])
-                s = self.sched(variant, len(db))
+                s = self.sched(variant, len(db), budget)
                 ops.append("R%d%s" % (now, "/" + s if s else ""))
                 t_last = now
                 ops.append("A")
@@ -405,8 +421,10 @@ def gen_cases(ctx):
     for _ in range(3000 if T else 400):
         cases.append(("b", g.history("b", g.rng.randrange(4, 20))))
     # the restart limit, exactly
-    for n in (15, 16):
+    for n in (14, 15, 16, 17):
         cases.append(("b", "%s G10:a;11:b Pa=7,b=8 M5 R10/%s A" % (g.head("b"), ".".join(["e1"] * n))))
+        cases.append(("b", "%s G10:a;11:b;12:a,b Pa=7,b=8 M5 R10/%s A S R20 A" % (
+            g.head("b", 60, 0), ".".join("e%d" % g.rng.randrange(0, 4) for _ in range(n)))))
     for _ in range(300 if T else 24):
         l = g.threaded()
         cases.append(("g", l))
